@@ -120,6 +120,21 @@ int main(int argc, char** argv) {
         SU_vector lst(a.GetComponents());
         if (!(lst == a)) mismatch("list-roundtrip", 1, 0);
         for (int k = 0; k < d * d; k++) if (lst[k] != a[k]) { mismatch("list-roundtrip-bits", 1, 0); break; }
+        // huge / tiny magnitudes: scaling by a power of two commutes exactly with both conversions
+        for (int e2 : {300, -300}) {
+          double sc = std::ldexp(1.0, e2);
+          SU_vector as = a * sc;
+          auto ms = as.GetGSLMatrix();
+          bool same = true;
+          for (int i = 0; i < d && same; i++)
+            for (int j = 0; j < d; j++) {
+              gsl_complex x = gsl_matrix_complex_get(m.get(), i, j), y = gsl_matrix_complex_get(ms.get(), i, j);
+              if (GSL_REAL(x) * sc != GSL_REAL(y) || GSL_IMAG(x) * sc != GSL_IMAG(y)) { same = false; break; }
+            }
+          if (!same) mismatch(std::string("scaled-tomatrix:2^") + std::to_string(e2), 1, 0);
+          SU_vector bs(ms.get());
+          for (int k = 0; k < d * d; k++) if (bs[k] != back[k] * sc) { mismatch(std::string("scaled-frommatrix:2^") + std::to_string(e2), 1, 0); break; }
+        }
         gsl_matrix_complex* m2 = gsl_matrix_complex_alloc(d, d);
         a.GetGSLMatrix(m2);
         expect_gsl("GetGSLMatrix(m)", m2, A, SA);
